@@ -43,7 +43,7 @@ def synth(o, isa):
     if isinstance(o, IdentifierOperand):
         return IdentifierOperand(name="lbl")
     if isinstance(o, ConditionOperand):
-        return ConditionOperand(ccode="EQ" if o.ccode == "*" else o.ccode)
+        return ConditionOperand(ccode="EQ" if o.ccode == "*" else str(o.ccode).upper())  # the parser upper-cases condition codes
     if isinstance(o, PrefetchOperand):
         return PrefetchOperand(type_id=["PLD"], target=["L1"], policy=["KEEP"])
     return None
